@@ -169,6 +169,12 @@ SLICES = [('string slice', 'person str = "Will Smith"\nsurname str = {?person}[5
           ('modification by a sliced injection', 's float[3] = [1,2,3]\na float = 1\na = {?s}[1]', 'a', 2.0),
           ('string array slice then element', 'n str[3] = ["a","b","c"]\nm str[2] = {?n}[1:]\nk str = {?m}[0]', 'k', 'b'),
           ('bool array element handed on', 'b bool[3] = [true,false,true]\nc bool = {?b}[1]\nd bool = {?c}', 'd', False),
+          ('boolean source modified, then referenced', 'flag bool = true\nflag = false\nb bool = {?flag}', 'b', False),
+          ('boolean source re-defined with its type, then referenced', 'flag bool = false\nflag bool = true\nb bool = {?flag}', 'b', True),
+          ('modified boolean as a case condition', 'flag bool = true\nflag = false\n@case {?flag}\n  x int = 1\n@else\n  x int = 2\n@end', 'x', 2),
+          ('int source modified in another prefix, then referenced', 'n int = 5 m\nn = 7000 mm\nk int = {?n}', 'k', 7),
+          ('int source modified in a larger prefix, then referenced', 'n int = 5 m\nn = 7 km\nk int = {?n}', 'k', 7000),
+          ('int source modified in another prefix, imported', 'g\n  n int = 5 m\n  n = 3 km\nc {?g.*}', 'c.n', 3000),
           ('injection of the value of a slice that is injected again', 's float[4] = [1,2,3,4]\nt float[:] = {?s}[1:]\nu float = {?t}[0]', 'u', 2.0), ('string whole', 'p str = "abc"\nq str = {?p}', 'q', 'abc')]
 SLICE_SRC = '''
 import numpy as np
